@@ -57,6 +57,15 @@ type simCache struct {
 	// was cut or disturbed (lossy): the client's receive counters must equal them at quiescence
 	sentByType map[uint8]int
 	lossy      bool
+	// a slow cache: queries are read but answered only when the stall ends
+	stall bool
+	// lifetime model: resynced = a response completed since the last loss of the connection;
+	// lostAt = the instant of the FIRST loss since that response; apiTouched = the operator
+	// reset / disabled the cache since (the content is then not pinned down until the next response)
+	resynced   bool
+	lostAt     time.Duration
+	lostLast   time.Duration // the latest loss (the lifetime may be counted from either)
+	apiTouched bool
 }
 
 type rpkiState struct {
@@ -90,6 +99,11 @@ func rpkiSetup(w *simWorld) error {
 		c.snaps[1] = map[roaRec]bool{}
 		st.caches = append(st.caches, c)
 		cc := c
+		w.preShutdown = append(w.preShutdown, func() {
+			cc.mu.Lock()
+			cc.stall = false
+			cc.mu.Unlock()
+		})
 		w.net.listen(c.addr, &simListener{mode: "accept", handle: func(conn *simConn) { cc.serve(conn) }})
 	}
 	return nil
@@ -155,10 +169,23 @@ func (c *simCache) send(conn *simConn, b []byte) error {
 // serve runs one RTR session from the cache's side.
 func (c *simCache) serve(conn *simConn) {
 	c.mu.Lock()
+	prev := c.conn
 	c.conn = conn
 	c.mu.Unlock()
+	if prev != nil {
+		// a new connection: the previous one is gone, whether or not its goroutine has noticed yet
+		c.noteLost()
+	}
 	c.w.logf("cache%d: connection from gobgp", c.idx)
 	defer conn.Close()
+	defer func() {
+		c.mu.Lock()
+		cur := c.conn == conn
+		c.mu.Unlock()
+		if cur {
+			c.noteLost()
+		}
+	}()
 	for {
 		h := make([]byte, 8)
 		if _, err := io.ReadFull(conn, h); err != nil {
@@ -172,6 +199,12 @@ func (c *simCache) serve(conn *simConn) {
 		}
 		body := make([]byte, l-8)
 		if _, err := io.ReadFull(conn, body); err != nil {
+			return
+		}
+		for c.isStalled() && !conn.isDead() {
+			time.Sleep(200 * time.Millisecond)
+		}
+		if conn.isDead() {
 			return
 		}
 		c.mu.Lock()
@@ -242,6 +275,23 @@ func (c *simCache) serve(conn *simConn) {
 	}
 }
 
+func (c *simCache) isStalled() bool {
+	c.mu.Lock()
+	defer c.mu.Unlock()
+	return c.stall
+}
+
+// noteLost: the connection of this cache ended.
+func (c *simCache) noteLost() {
+	c.mu.Lock()
+	if c.resynced {
+		c.resynced = false
+		c.lostAt = c.w.now()
+	}
+	c.lostLast = c.w.now()
+	c.mu.Unlock()
+}
+
 func (c *simCache) setLossy() {
 	c.mu.Lock()
 	c.lossy = true
@@ -262,6 +312,8 @@ func (c *simCache) noteEOD(cur map[roaRec]bool, full bool) {
 	c.synced = cur
 	c.haveSync = true
 	c.lastEOD = c.w.now()
+	c.resynced = true
+	c.apiTouched = false
 	c.mu.Unlock()
 	c.w.probe("rtr_end_of_data")
 }
@@ -324,7 +376,30 @@ func genRPKI(seed uint64, tier, mode string) *Script {
 		case r < 70:
 			add(Op{Kind: "cacherestart", N: ci})
 		case r < 75:
-			add(Op{Kind: "cachedrop", N: ci})
+			switch g.n(6) {
+			case 0:
+				// a slow cache: the connection is lost and comes back, but the response is held
+				// back for longer than the lifetime / is cut again before it completes
+				add(Op{Kind: "stall", N: ci, Arg: "on"})
+				add(Op{Kind: "cachedrop", N: ci})
+				if g.p(50) {
+					add(Op{Kind: "wait", N: pick(g, []int{1000, 31000})})
+					add(Op{Kind: "probe"})
+					add(Op{Kind: "stall", N: ci, Arg: "off"})
+					add(Op{Kind: "cachedrop", N: ci})
+					add(Op{Kind: "probe"})
+					add(Op{Kind: "wait", N: pick(g, []int{31000, 61000})})
+				} else {
+					add(Op{Kind: "wait", N: pick(g, []int{31000, 61000, 100000})})
+					add(Op{Kind: "probe"})
+					add(Op{Kind: "stall", N: ci, Arg: "off"})
+				}
+				add(Op{Kind: "probe"})
+			case 1:
+				add(Op{Kind: "stall", N: ci, Arg: pick(g, []string{"on", "off"})})
+			default:
+				add(Op{Kind: "cachedrop", N: ci})
+			}
 		case r < 79:
 			add(Op{Kind: "resetrpki", N: ci, Arg: pick(g, []string{"soft", "hard"})})
 		case r < 82:
@@ -348,6 +423,8 @@ func genRPKI(seed uint64, tier, mode string) *Script {
 			add(Op{Kind: "probe"})
 		}
 	}
+	add(Op{Kind: "stall", N: 0, Arg: "off"})
+	add(Op{Kind: "stall", N: 1, Arg: "off"})
 	add(Op{Kind: "listen", N: 0, Arg: "accept"})
 	add(Op{Kind: "listen", N: 1, Arg: "accept"})
 	add(Op{Kind: "wait", N: 35000})
@@ -417,6 +494,8 @@ func rpkiOp(w *simWorld, actor int, op *Op) {
 			c.fuzzy = false
 			c.sentByType = map[uint8]int{}
 			c.lossy = false
+			c.resynced = false
+			c.apiTouched = false
 			c.mu.Unlock()
 		}
 		err := w.s.AddRpki(ctx, &api.AddRpkiRequest{Address: host, Port: 323, Lifetime: st.lifetime})
@@ -451,6 +530,9 @@ func rpkiOp(w *simWorld, actor int, op *Op) {
 	case "resetrpki", "disablerpki":
 		c := st.caches[op.N]
 		c.setLossy()
+		c.mu.Lock()
+		c.apiTouched = true
+		c.mu.Unlock()
 		host, _, _ := net.SplitHostPort(c.addr)
 		var err error
 		if op.Kind == "disablerpki" {
@@ -524,6 +606,7 @@ func rpkiOp(w *simWorld, actor int, op *Op) {
 		c.mu.Unlock()
 		if conn != nil {
 			conn.Close()
+			c.noteLost()
 		}
 		rpkiSettle()
 		w.probe("cache_restart")
@@ -536,8 +619,19 @@ func rpkiOp(w *simWorld, actor int, op *Op) {
 		if conn != nil && !conn.isClosed() {
 			w.net.resetPair(conn)
 			w.net.stats.fire("conn_reset")
+			c.noteLost()
 		}
 		rpkiSettle()
+	case "stall":
+		c := st.caches[op.N]
+		c.mu.Lock()
+		c.stall = op.Arg == "on"
+		c.mu.Unlock()
+		if op.Arg != "on" {
+			time.Sleep(300 * time.Millisecond)
+		}
+		rpkiSettle()
+		w.probe("cache_stall_" + op.Arg)
 	case "corrupt":
 		c := st.caches[op.N]
 		c.mu.Lock()
@@ -765,6 +859,7 @@ func (w *simWorld) rpkiCompare(st *rpkiState) {
 		}
 		connUp := c.conn != nil && !c.conn.isClosed()
 		fuzzy := c.fuzzy
+		resynced, lostAt, lostLast, apiTouched, lastEOD := c.resynced, c.lostAt, c.lostLast, c.apiTouched, c.lastEOD
 		c.mu.Unlock()
 		g := got[c.addr]
 		if !st.configured[i] {
@@ -773,7 +868,28 @@ func (w *simWorld) rpkiCompare(st *rpkiState) {
 			}
 			continue
 		}
-		if fuzzy || !have || !connUp {
+		if !fuzzy && have && !apiTouched && !resynced {
+			// the connection was lost and no response has completed since: the records stay for
+			// the configured lifetime, counted from the loss, and are gone after it
+			life := time.Duration(st.lifetime) * time.Second
+			since := w.now() - lostAt
+			switch {
+			case w.now()-lostLast > life+2*time.Second:
+				if len(g) > 0 {
+					w.violate("C16", "roa-outlives-lifetime", c.addr, fmt.Sprintf("the connection was lost at %.3fs and no response has completed since; %.0fs later (lifetime %ds) %d record(s) of the lost session are still in the table, e.g. %s", lostAt.Seconds(), since.Seconds(), st.lifetime, len(g), sortedRecs(g)[0]))
+				}
+				w.probe("cache_lifetime_expired")
+				continue
+			case since < life-2*time.Second && lostAt-lastEOD >= 40*time.Millisecond:
+				for _, r := range sortedRecs(want) {
+					if !g[r] {
+						w.violate("C16", "roa-dropped-within-lifetime", c.addr, fmt.Sprintf("the connection was lost at %.3fs, %.0fs ago (lifetime %ds), and record %s of the lost session is already gone", lostAt.Seconds(), since.Seconds(), st.lifetime, r))
+					}
+				}
+				w.probe("cache_stale_within_lifetime")
+			}
+		}
+		if fuzzy || !have || !connUp || apiTouched || !resynced {
 			// after injected corruption, before the first complete response, or while the session is
 			// down (lifetime expiry in progress) the exact content is not pinned down here
 			exact = false
